@@ -80,7 +80,8 @@ def visitItem (m : Nat) (W : World) (rec : Analyse) (fn : Fn) (inputSig : Sg) (s
       if f ∈ stack then .error .circularCall else do
       let named ← liftA (getArgCtxAst m g.params args kwargs)
       let (fis, refs) ← rec st.refs (stack ++ [f]) g ⟨named, ctx⟩
-      pure { st with inters := st.inters ++ [fis.withPath path], seen := f :: st.seen, refs := refs }
+      -- (since the `fix:` commit for C09) the kept path is registered for the loads that follow
+      pure { st with inters := st.inters ++ [fis.withPath path], seen := f :: st.seen, refs := aset refs path fis.retSig }
   | .load path _ =>
     if !pathAbsolute path then .error .pathNotAbsolute else
     .ok { st with loads := st.loads ++ [path] }
@@ -187,6 +188,38 @@ def indirectFn (W : World) : Nat → IndRec
       | none => st.1
     let st' ← indirectItems W (indirectFn W fuel) stack (acc0, st.2) [fn.name] fn.items
     pure (st'.1, fn.name :: st'.2)
+
+/-! ### Load order (since the `fix:` commit for C09): a path produced by the evaluation may only be loaded
+after the call that produces it has returned, in program order -/
+
+abbrev OrdRec := List String → Fn → Except DdsErr (List String)
+
+def orderItems (W : World) (stores : List String) (rec : OrdRec) : List String → List Item → Except DdsErr (List String)
+  | produced, [] => .ok produced
+  | produced, it :: its =>
+    match it with
+    | .call f _ | .ref f _ =>
+      match W.find f with
+      | none => .error .objectNotFound
+      | some g => do
+        let p ← rec produced g
+        orderItems W stores rec p its
+    | .keep path f _ _ _ _ _ =>
+      match W.find f with
+      | none => .error .objectNotFound
+      | some g => do
+        let p ← rec produced g
+        orderItems W stores rec (path :: p) its
+    | .load path _ =>
+      if stores.contains path && !(produced.contains path) then .error .loadBeforeProduce
+      else orderItems W stores rec produced its
+    | .evalCall _ _ => .error .evalInEval
+
+def orderFn (W : World) (stores : List String) : Nat → OrdRec
+  | 0, _, _ => .error .outOfFuel
+  | fuel + 1, produced, fn => do
+    let p ← orderItems W stores (orderFn W stores fuel) produced fn.items
+    pure (match fn.storePath with | some sp => sp :: p | none => p)
 
 /-- the paths that must be resolved by the store before the analysis: loaded, and not produced here -/
 def loadsToCheck (ind : Indirect) : List String :=
